@@ -281,10 +281,12 @@ PROPS = {
     ),
     "C12": dict(
         level="proof",
-        level_text="Complete proofs over finite domains (Kani): every row of scripts/tls-ciphersuites.txt (independent parser) is in the phf registry with all 10 columns (352 x 10 generated assertions), the registry has exactly that many entries, for every 16-bit id each lookup route returns a suite iff listed, carrying that id, all routes the same entry; derived sizes consistent for every entry. The txt itself is checked against a frozen snapshot (assignments never altered) and against the algorithm tokens of each name. By-name lookup over all strings is intractable for CBMC: exhaustive-execution stand-in over the listed names and ~15k perturbations (bounded, not proof).",
+        level_text="Complete proofs over finite domains (Kani): every row of scripts/tls-ciphersuites.txt (independent parser) is in the phf registry with all 10 columns (352 x 10 generated assertions), the registry has exactly that many entries, for every 16-bit id each lookup route returns a suite iff listed, carrying that id, all routes the same entry; derived sizes consistent for every entry; the three size functions enc_key_size / enc_block_size / mac_length are also proved in Verus (unit ciphers, real bodies) to be key bits / 8 and the block-size / MAC-length tables of the property for EVERY value of the structure, registry row or not. The txt itself is checked against a frozen snapshot (assignments never altered) and against the algorithm tokens of each name. By-name lookup over all strings is intractable for CBMC: exhaustive-execution stand-in over the listed names and ~15k perturbations (bounded, not proof).",
         level_note="Trusted: oracles/ciphersuites.snapshot (copy of the txt at the pinned commit); the generator's token rules. Name text in the row assertions is probed (length + 2 characters); full name equality is part of the by-name stand-in.",
-        technique="generated full-domain Kani harnesses; exhaustive execution stand-in for by-name lookup",
+        technique="generated full-domain Kani harnesses; Verus postconditions on the extracted size functions (every structure value); exhaustive execution stand-in for by-name lookup",
         generators=["gen_c12.py"],
+        verus=["ciphers"],
+        paired={"ciphers": ["fd_cipher_sizes"]},
         kani=[dict(quick=["fd_from_id", "fd_route_try_from_u16", "fd_route_try_from_id", "fd_route_get_ciphersuite", "fd_ciphers_len", "fd_cipher_sizes", "fd_c12_rows"], timeout=900)],
         standins=[dict(name="cipher_by_name", kind="bounded-execution", bound="352 listed names + every proper prefix, 4 suffixes, case/space changes and 10 token swaps each (~15.7k strings)", payload={"cipher_names_check": 1})],
         explanation="see level_text",
